@@ -49,8 +49,10 @@ XLimits        == {XDepth, XBytes, XCheck}
 (* p (sequence of integers), id (node id, 0 for a synthesised expression)  *)
 E(op, kids, p) == [op |-> op, kids |-> kids, p |-> p, id |-> 0]
 Ref(n)         == [op |-> "ref", kids |-> <<>>, p |-> <<n>>, id |-> n]
+\* (a node with op "expr" carries its body as an expression, field x: used by the design-level configurations)
 Lift(n)        == LET nd == Nodes[n] IN
-                  [op |-> nd.op, kids |-> [i \in DOMAIN nd.kids |-> Ref(nd.kids[i])], p |-> nd.p, id |-> n]
+                  IF nd.op = "expr" THEN nd.x
+                  ELSE [op |-> nd.op, kids |-> [i \in DOMAIN nd.kids |-> Ref(nd.kids[i])], p |-> nd.p, id |-> n]
 
 ESeq(ks)  == E("seq", ks, <<>>)
 ESor(ks)  == E("sor", ks, <<>>)
@@ -281,7 +283,7 @@ Min2(a, b)    == IF a <= b THEN a ELSE b
 SwKind(n, c) == IF c.fam = 5 THEN Nodes[n].sw ELSE 0
 Switch(n, c) ==
    LET k == SwKind(n, c) IN
-   CASE k \in {3, 4, 5} -> [c EXCEPT !.fam = 1]
+   CASE k \in {3, 4, 5, 10} -> [c EXCEPT !.fam = 1]
      [] k = 6 -> [c EXCEPT !.vis = 0]
      [] k = 7 -> [c EXCEPT !.A = 1]
      [] k = 8 -> [c EXCEPT !.A = 0]
